@@ -1,6 +1,7 @@
 package main
 
 import (
+	"sync"
 	"context"
 	"encoding/json"
 	"fmt"
@@ -58,6 +59,79 @@ func (s *stubInvoker) Invoke(ctx context.Context, inv protocol.Invocation) proto
 
 func init() {
 	gin.SetMode(gin.ReleaseMode)
+	// integ_overlap: two requests with different xids are served while the first one is still inside its handler; the
+	// server's base context is a seata context shared by all requests (http.Server.BaseContext built with
+	// tm.InitSeataContext). Every handler must see its own xid from entry to exit, and the base context stays unbound.
+	register("integ_overlap", func(arg json.RawMessage) (interface{}, error) {
+		var a struct {
+			Kind string `json:"kind"` // gin | grpc
+			Xid1 string `json:"xid1"`
+			Xid2 string `json:"xid2"`
+		}
+		if err := json.Unmarshal(arg, &a); err != nil {
+			return nil, err
+		}
+		base := tm.InitSeataContext(context.Background())
+		entered := make(chan struct{})
+		release := make(chan struct{})
+		out := map[string]string{}
+		var mu sync.Mutex
+		set := func(k, v string) {
+			mu.Lock()
+			out[k] = v
+			mu.Unlock()
+		}
+		handler := func(ctx context.Context, which string, park bool) {
+			set(which+"_entry", tm.GetXID(ctx))
+			if park {
+				close(entered)
+				<-release
+			}
+			set(which+"_exit", tm.GetXID(ctx))
+		}
+		var wg sync.WaitGroup
+		serve := func(which, xid string, park bool) {
+			defer wg.Done()
+			defer func() {
+				if r := recover(); r != nil {
+					set("panic", fmt.Sprint(r))
+				}
+			}()
+			switch a.Kind {
+			case "gin":
+				eng := gin.New()
+				eng.ContextWithFallback = true
+				eng.Use(sgin.TransactionMiddleware())
+				eng.GET("/m", func(c *gin.Context) {
+					handler(c.Request.Context(), which, park)
+					c.String(http.StatusOK, "ok")
+				})
+				req := httptest.NewRequest("GET", "/m", nil).WithContext(base)
+				req.Header.Set("TX_XID", xid)
+				eng.ServeHTTP(httptest.NewRecorder(), req)
+			case "grpc":
+				in := metadata.NewIncomingContext(base, metadata.Pairs("TX_XID", xid))
+				sgrpc.ServerTransactionInterceptor(in, nil, &grpc.UnaryServerInfo{FullMethod: "/svc/m"}, func(ctx context.Context, req interface{}) (interface{}, error) {
+					handler(ctx, which, park)
+					return nil, nil
+				})
+			}
+		}
+		wg.Add(1)
+		go serve("first", a.Xid1, true)
+		select {
+		case <-entered:
+		case <-time.After(10 * time.Second):
+			return nil, fmt.Errorf("first request never reached its handler")
+		}
+		wg.Add(1)
+		serve("second", a.Xid2, false)
+		close(release)
+		wg.Wait()
+		out["base_after"] = tm.GetXID(base)
+		return out, nil
+	})
+
 	register("integ", func(arg json.RawMessage) (interface{}, error) {
 		var a integArg
 		if err := json.Unmarshal(arg, &a); err != nil {
